@@ -693,3 +693,8 @@ _add(
     "C33",
     m("exec-filter-keeps-cached", "redun/backends/db/query.py", "        job_statuses = [status for status in execution_statuses if status != \"CACHED\"]", "        job_statuses = list(execution_statuses)", "C33.2"),
 )
+
+_add(
+    "C26",
+    m("merge-mixed-returns-last-only", "redun/utils.py", "        if last_non_dict == len(dicts) - 1:\n            return dicts[-1]\n        return merge_dicts(dicts[last_non_dict + 1 :])", "        return dicts[-1]", "C26.2"),
+)
